@@ -2559,8 +2559,10 @@ def parse_config(bindings, skip_unknown=False):
               raise
             _print_unknown_import_message(statement, e)
         # Recorded right away, like the bindings made so far, in case a later
-        # statement fails.
-        _IMPORTS.update(parse_context.imports)
+        # statement fails. (Not on a locked config: the binding that follows
+        # will be refused, and a refused parse leaves a locked config as it is.)
+        if not config_is_locked():
+          _IMPORTS.update(parse_context.imports)
       elif isinstance(statement, config_parser.IncludeStatement):
         with utils.try_with_location(statement.location):
           nested_includes = parse_config_file(statement.filename, skip_unknown)
